@@ -44,7 +44,7 @@ func yieldStmt(r *rand.Rand) string {
 	return ""
 }
 
-const gorFamilies = 15
+const gorFamilies = 16
 
 // genGorCase generates a case of the given family (a random one when family < 0).
 func genGorCase(r *rand.Rand, family int) gorCase {
@@ -112,6 +112,10 @@ func genGorCase(r *rand.Rand, family int) gorCase {
 	case 14:
 		// go of a native function mixed with plain calls of the same function
 		return gorCase{Name: "go-native-and-plain-calls", Body: "res := make(chan int, 2*" + N + ")\nfor i := 0; i < " + N + "; i++ {\n\tgo h.Send(res, i+" + B + ")\n\th.Send(res, 1000*i)\n\t" + y() + "}\nt := 0\nfor i := 0; i < 2*" + N + "; i++ {\n\tt += <-res\n}\nh.Print(t)\n"}
+	case 15:
+		// a select with several send cases of the same register kind: every channel must get its own value
+		// (the emitter evaluated them all into one register; repaired by the select fix recorded in KNOWN_FINDINGS.txt)
+		return gorCase{Name: "select-several-sends", Body: "a := make(chan int, 1)\nb := make(chan int, 1)\ns := make(chan string, 1)\nt := make(chan string, 1)\nx := " + A + "\nfor i := 0; i < " + N + "; i++ {\n\tfor k := 0; k < 4; k++ {\n\t\tselect {\n\t\tcase a <- x + i:\n\t\tcase b <- x*" + B + " - i:\n\t\tcase s <- \"s\":\n\t\tcase t <- \"t\" + h.Sprint(i):\n\t\t}\n\t}\n\th.Print(<-a, \" \", <-b, \" \", <-s, \" \", <-t, \";\")\n}\n"}
 	case 9:
 		return gorCase{Name: "buffered-semaphore", Body: "sem := make(chan bool, 2)\nres := make(chan int, " + N + ")\nfor i := 0; i < " + N + "; i++ {\n\tgo func(v int) {\n\t\tsem <- true\n\t\t" + y() + "\t\tres <- v * v\n\t\t<-sem\n\t}(i)\n}\nt := 0\nfor i := 0; i < " + N + "; i++ {\n\tt += <-res\n}\nh.Print(t, \" \", len(sem) <= 2, \" \", cap(res))\n"}
 	default:
